@@ -1,6 +1,7 @@
 import GnoVerif.Base.Kit
 import GnoVerif.Model.C04Eval
 import GnoVerif.Model.C04Known
+import GnoVerif.Model.C04Line
 /-!
 Driver for C04: parses one MiniGo program per op line (S-expression tokens
 written by harness/minigo), runs the model evaluator and prints the canonical
@@ -280,26 +281,6 @@ def progOf : List SExp → P Program
 
 /-! ### canonical outcome line -/
 
-def fnv1a (s : String) : Nat :=
-  s.toUTF8.toList.foldl (fun h b => ((h ^^^ b.toNat) * 16777619) % 4294967296) 2166136261
-
-def bodyOf (out : Array String) : String :=
-  let b := String.join out.toList
-  if b.length ≤ 300 then b
-  else (b.take 200).toString ++ "~" ++ toString (fnv1a b) ++ "~" ++ toString b.length
-
-def statusOf : Outcome → String
-  | .ok => "ok"
-  | .oof => "oof"
-  | .stuck msg => "stuck:" ++ msg.replace " " "_"
-  | .panic (.rt e) => "panic:" ++ e.name
-  | .panic (.user v) =>
-    match v with
-    | .anyV .str (.str s) => "panic:user s:" ++ escBytes s
-    | .anyV (.int _) (.int _ i) => "panic:user i:" ++ toString i
-    | .anyV .rterr (.str s) => "panic:" ++ escBytes s
-    | _ => "panic:user o"
-
 def fuelDefault : Nat := 2000000
 
 def runLine (toks : List String) : String :=
@@ -309,9 +290,7 @@ def runLine (toks : List String) : String :=
     match progOf sx with
     | .error _ => "err:parse"
     | .ok p =>
-      let (oc, out) := runProgram p fuelDefault
-      let b := bodyOf out
-      if b.isEmpty then statusOf oc else statusOf oc ++ " " ++ b
+      outcomeLine (runProgram p fuelDefault)
 
 /-- a pinned known-finding witness: the model must give the recorded Go answer;
 the line is answered with the recorded (observed) GnoVM answer -/
